@@ -47,12 +47,59 @@ def use_repo():
 
 # --------------------------------------------------------------------------- lean side
 
+_CHARLIT = re.compile(r"'(?:\\(?:x[0-9a-fA-F]{2}|u[0-9a-fA-F]{4}|.)|[^\\'\n])'")
+
+
 def _strip_comments(src):
-    # remove /- ... -/ (nested not needed here) and -- line comments and string literals
-    src = re.sub(r'/-.*?-/', ' ', src, flags=re.S)
-    src = re.sub(r'--[^\n]*', ' ', src)
-    src = re.sub(r'"(?:\\.|[^"\\])*"', '""', src)
-    return src
+    """Lean source without comments, with string and character literals blanked: a small lexer (nested /- -/ block
+    comments, -- line comments, "..." strings with escapes, 'c' character literals - a quote that follows an
+    identifier character is part of the identifier, e.g. h')."""
+    out = []
+    i, n = 0, len(src)
+    depth = 0
+    while i < n:
+        c = src[i]
+        two = src[i:i + 2]
+        if depth:
+            if two == '/-':
+                depth += 1
+                i += 2
+            elif two == '-/':
+                depth -= 1
+                i += 2
+            else:
+                if c == '\n':
+                    out.append('\n')
+                i += 1
+            continue
+        if two == '/-':
+            depth = 1
+            i += 2
+            out.append(' ')
+        elif two == '--':
+            j = src.find('\n', i)
+            i = n if j < 0 else j
+            out.append(' ')
+        elif c == '"':
+            j = i + 1
+            while j < n and src[j] != '"':
+                j += 2 if src[j] == '\\' else 1
+            out.append('""')
+            out.append('\n' * src.count('\n', i, j))
+            i = j + 1
+        elif c == "'":
+            prev = src[i - 1] if i else ' '
+            m = None if (prev.isalnum() or prev in "_'!?" or ord(prev) > 127) else _CHARLIT.match(src, i)
+            if m:
+                out.append("' '")
+                i = m.end()
+            else:
+                out.append(c)
+                i += 1
+        else:
+            out.append(c)
+            i += 1
+    return ''.join(out)
 
 
 class LeanResult:
@@ -67,6 +114,7 @@ class LeanResult:
         self.wall_s = 0.0
         self.leanchecker = None
         self.files = []
+        self.aux_theorems = 0
 
     @property
     def ok(self):
@@ -156,35 +204,60 @@ def lean_check(prop, thorough=False):
             src = _strip_comments(f.read())
         for mm in FORBIDDEN.finditer(src):
             r.hygiene.append('%s: %s' % (m, mm.group(0).strip()))
-    # theorem names: every `theorem <name>` in the Props file (namespace = prop id)
+    # theorem names.  Authoritative list: every theorem constant that Lean's environment records for the property's
+    # Props module(s) - enumerated by a generated audit file, so it does not depend on parsing the source text.  The
+    # `theorem <name>` declarations found in the source (comments/strings/char literals removed by a lexer) are a
+    # cross-check: a declared name the environment does not have counts as a theorem that no longer checks.
     ppath = os.path.join(LEAN, 'Proofs', 'Props', prop + '.lean')
     with open(ppath) as f:
         psrc = _strip_comments(f.read())
+
     def _thms(src):
-        names = re.findall(r'^\s*theorem\s+([\w.\']+)', src, flags=re.M)
+        names = re.findall(r'^\s*(?:@\[[^\]]*\]\s*)?(?:private\s+|protected\s+)?theorem\s+([^\s:({\[]+)', src, flags=re.M)
         ns = re.search(r'^\s*namespace\s+([\w.]+)', src, flags=re.M)
         return [(ns.group(1) + '.' + n) if ns else n for n in names]
-    full = _thms(psrc)
+    declared = _thms(psrc)
+    mods = ['Proofs.Props.' + prop]
     # property-theorem files this one imports (shared layers such as Proofs/Props/XmlSyntax.lean) are audited with it
     for dep in re.findall(r'^\s*import\s+Proofs\.Props\.(\w+)', psrc, flags=re.M):
         if dep != prop:
+            mods.append('Proofs.Props.' + dep)
             with open(os.path.join(LEAN, 'Proofs', 'Props', dep + '.lean')) as f:
-                full += _thms(_strip_comments(f.read()))
-    r.theorems = {n: None for n in full}
-    if r.build_ok and full:
+                declared += _thms(_strip_comments(f.read()))
+    r.theorems = {n: None for n in declared}
+    r.aux_theorems = 0
+    if r.build_ok:
         audit = os.path.join(LEAN, '.lake', 'audit_%s_%d.lean' % (prop, os.getpid()))
         with open(audit, 'w') as f:
-            f.write('import Proofs.Props.%s\n' % prop)
-            for n in full:
-                f.write('#print axioms %s\n' % n)
+            f.write('import Lean\n' + ''.join('import %s\n' % m for m in mods))
+            f.write('open Lean Elab Command in\nrun_cmd do\n  let env ← getEnv\n  for modName in [%s] do\n'
+                    % ', '.join('`' + m for m in mods))
+            f.write('    let some idx := env.getModuleIdx? modName | throwError "module not found"\n'
+                    '    let names := env.constants.fold (init := (#[] : Array Name)) fun acc n ci =>\n'
+                    '      if env.getModuleIdxFor? n == some idx then\n'
+                    '        match ci with\n        | .thmInfo _ => acc.push n\n        | _ => acc\n'
+                    '      else acc\n'
+                    '    for n in names do\n'
+                    '      let ax ← collectAxioms n\n'
+                    '      IO.println s!"AX|{n}|{n.isInternalDetail}|{ax.toList}"\n')
         try:
             p = subprocess.run(['lake', 'env', 'lean', audit], cwd=LEAN, stdout=subprocess.PIPE,
-                               stderr=subprocess.STDOUT, text=True, timeout=900)
-            out = p.stdout.replace('\n ', ' ')
-            for mm in re.finditer(r"^'(.+)' depends on axioms: \[([^\]]*)\]", out, flags=re.M):
-                r.theorems[mm.group(1)] = [a.strip() for a in mm.group(2).split(',') if a.strip()]
-            for mm in re.finditer(r"^'(.+)' does not depend on any axioms", out, flags=re.M):
-                r.theorems[mm.group(1)] = []
+                               stderr=subprocess.STDOUT, text=True, timeout=1500)
+            for line in p.stdout.splitlines():
+                if not line.startswith('AX|'):
+                    continue
+                _, name, internal, axs = line.split('|', 3)
+                ax = [a.strip() for a in axs.strip()[1:-1].split(',') if a.strip()]
+                if internal == 'true':
+                    # auxiliary theorems generated by the elaborator (…._proof_i, equation lemmas): audited, not counted
+                    r.aux_theorems += 1
+                    bad = [a for a in ax if a not in ALLOWED_AXIOMS]
+                    if bad:
+                        r.bad_axioms[name] = bad
+                else:
+                    r.theorems[name] = ax
+            if p.returncode != 0:
+                r.build_log += '\naxiom audit failed: ' + p.stdout[-1500:]
         finally:
             os.unlink(audit)
         for n, ax in r.theorems.items():
